@@ -127,7 +127,7 @@ func chanLiteral(fn *ssa.Function, v ssa.Value, depth int) ([]chanElem, bool) {
 			return out, ok
 		}
 		g := an.StaticCallee(&call.Call)
-		if g == nil || len(g.Blocks) == 0 || g.Pkg == nil || !strings.HasPrefix(g.Pkg.Pkg.Path(), an.ModulePrefix) || len(g.Params) != len(call.Call.Args) {
+		if !an.InModuleFn(g) || len(g.Params) != len(call.Call.Args) {
 			return nil, false
 		}
 		var out []chanElem
